@@ -101,6 +101,59 @@ PROPS["C05"] = {
     "assumptions": [],
 }
 
+_DERIVE_BOUNDS = "BOUNDED: catalogue of 10 derived types (kani/src/h_derive.rs); payload objects of <= 2 members (plus the tag), keys symbolic over a per-type dictionary of 4-11 equal-length words (effective keys, identifiers, case variations, names of skipped fields), values in {Integer 0..3, Null, Boolean}, every Continue/Break answer sequence; field types are the contract stub `Leaf`"
+_DERIVE_ASSUME = [
+    "program quantifier ('every derive input') is SAMPLED: a hand-written catalogue of 10 types covering rename / rename_all (struct, enum, variant), default / default = expr / skip (in the middle of the declaration), deny_unknown_fields (default and function), missing_field_error, from / try_from / map / validate (field and container), tag, unit enums, nesting; the expansion is the real proc-macro's output compiled by rustc",
+    "reference semantics (kani/src/support/reference.rs) written from the property statements; effective keys / deny lists / variant names in the descriptors are computed by hand from the statement's rules, not by the derive",
+    "field types are `Leaf` (the Deserr trait contract made executable: accepts exactly Integer, otherwise exactly one report at its location); payload width/depth are bounded as stated, so this is a bounded stand-in, not a proof",
+    "alloc::fmt::format is stubbed in the Kani harnesses",
+]
+def _kd(group, hs, thorough=None, timeout=2400):
+    return {"kind": "kani", "group": group, "filters": ["h_derive::proofs::" + h + "::check" for h in hs], "thorough_filters": ["h_derive::proofs::" + h + "::check" for h in (thorough or [])],
+            "need_stub": True, "timeout": timeout, "bounds": _DERIVE_BOUNDS, "extra": ["--exact"], "jobs": 8}
+def _ed(group, hs, thorough=None):
+    return {"kind": "enum", "group": group + "-enum", "harnesses": hs, "thorough_harnesses": thorough or [],
+            "bounds": "exhaustive native execution of the same harness bodies over their whole decision tree (same bounds as the Kani harnesses; thorough tier adds 3-member objects)"}
+_DERIVE_LEVEL_NOTE = "Bounded stand-in (Kani/CBMC, all inputs within the stated bounds, unwinding assertions on) -- not counted as proved; the derive's generated code is outside Verus' reach (string-literal matches, closures, inferred FieldState types)."
+PROPS.update({
+    "C07": {"title": "Derived fields are read from exactly their effective key", "level": "model_checking",
+        "technique": "Kani/CBMC bounded model checking of the real derive expansion against a reference interpreter (symbolic keys over a dictionary with near-misses); contract = postcondition computed from the declarative description",
+        "design_ref": "DESIGN.md §4 C07-C11",
+        "units": [_kd("derive-keys", ["derive_plain_2", "derive_camel_2", "derive_lower_2", "derive_tagged_first"]), _ed("derive-keys", ["derive_plain_2", "derive_camel_2", "derive_lower_2", "derive_tagged_first", "derive_tagged_last", "derive_deny4_2"])],
+        "text": "For catalogue types using rename, rename_all = camelCase / lowercase on structs, on an enum (variants only) and on a variant (its fields only), skip and default, every payload of <= 2 members whose keys range symbolically over the effective keys, the raw identifiers, case variations and skipped-field names is run through the real expansion; the Ok value must have each field filled from exactly the entry under its effective key (distinct Integer payloads tell entries apart) and the missing / unknown-key reports must name exactly the effective keys.",
+        "level_note": _DERIVE_LEVEL_NOTE, "assumptions": _DERIVE_ASSUME},
+    "C08": {"title": "Missing, default and skip: absent means absent, once, at the right place", "level": "model_checking",
+        "technique": "Kani/CBMC bounded model checking of the real derive expansion against a reference interpreter (FieldState discipline: missing / present-but-invalid / default / skipped)",
+        "design_ref": "DESIGN.md §4 C07-C11",
+        "units": [_kd("derive-missing", ["derive_camel_2", "derive_lower_2", "derive_fns5_2", "derive_conv8_2"]), _ed("derive-missing", ["derive_camel_2", "derive_lower_2", "derive_fns5_2", "derive_conv8_2", "derive_deny4_2", "derive_plain_2"], ["derive_conv8_3"])],
+        "text": "For types with default, default = expr, skip (declared between other fields), missing_field_error = fn, map on a defaulted field and Option fields: a missing report is made exactly for non-skipped, non-defaulted fields whose key is absent (null and invalid values count as present), carries the effective key and the container's location (the user function receives exactly those two), defaults are taken exactly when absent (map applied on top), skipped fields never read the payload.",
+        "level_note": _DERIVE_LEVEL_NOTE, "assumptions": _DERIVE_ASSUME},
+    "C09": {"title": "Unknown keys: denied exactly and completely, otherwise ignored completely", "level": "model_checking",
+        "technique": "Kani/CBMC bounded model checking of the real derive expansion against a reference interpreter (accepted list = effective keys of non-skipped fields in declaration order, compared by positional hash)",
+        "design_ref": "DESIGN.md §4 C07-C11",
+        "units": [_kd("derive-unknown", ["derive_deny4_2", "derive_camel_2", "derive_fns5_2", "derive_plain_2"]), _ed("derive-unknown", ["derive_deny4_2", "derive_camel_2", "derive_fns5_2", "derive_plain_2", "derive_lower_2"])],
+        "text": "With deny_unknown_fields (default error and user function) every key that is not an effective key of a non-skipped field -- including the names of skipped fields, raw identifiers of renamed fields and case variations -- is reported exactly once at the container's location with the exact accepted list in declaration order; without the attribute the reference ignores such keys, so value and reports must be those of the payload without them.",
+        "level_note": _DERIVE_LEVEL_NOTE, "assumptions": _DERIVE_ASSUME},
+    "C10": {"title": "Enum dispatch: the tag or string selects exactly the named variant", "level": "model_checking",
+        "technique": "Kani/CBMC bounded model checking of the real derive expansion of a tagged enum and a unit enum against a reference interpreter (tag first / last / absent / non-string / near-miss names)",
+        "design_ref": "DESIGN.md §4 C07-C11",
+        "units": [_kd("derive-enum", ["derive_tagged_first", "derive_tagged_last", "derive_tagged_absent", "derive_tagged_not_a_map", "derive_units"]), _ed("derive-enum", ["derive_tagged_first", "derive_tagged_last", "derive_tagged_absent", "derive_tagged_not_a_map", "derive_units"])],
+        "text": "Tagged enum with renamed variants, container rename_all, a variant-level rename_all and variants sharing a field name with different types: the variant is the one whose effective name equals the tag string exactly (case variations and field keys as tag values select nothing: Unexpected at the enum), absent tag => MissingField(tag) at the enum, non-string tag => kind error at the tag's own location, fields then follow the selected variant's rules only. Unit enum: exact match, otherwise UnknownValue with all effective names in declaration order.",
+        "level_note": _DERIVE_LEVEL_NOTE, "assumptions": _DERIVE_ASSUME},
+    "C11": {"title": "from / try_from / map / validate see only good values, once, in order", "level": "model_checking",
+        "technique": "Kani/CBMC bounded model checking of the real derive expansion with call-counting user functions against a reference interpreter (counter equalities, foreign-error hand-over events)",
+        "design_ref": "DESIGN.md §4 C07-C11",
+        "units": [_kd("derive-fns", ["derive_conv8_2", "derive_cont9", "derive_fns5_2"], ["derive_conv8_3"]), _ed("derive-fns", ["derive_conv8_2", "derive_cont9", "derive_fns5_2"], ["derive_conv8_3"])],
+        "text": "Field-level try_from / from, map on a defaulted field, container validate and container-level try_from, all with call counters: each conversion runs exactly once iff its intermediate value deserialized, map once per field iff the container succeeded, validate once iff all fields succeeded (receiving the finished value and the container's location); a try_from / validate failure appears as exactly one foreign-error event at the field's (container's) location, handed over once, and fails the call.",
+        "level_note": _DERIVE_LEVEL_NOTE, "assumptions": _DERIVE_ASSUME},
+    "C15": {"title": "Object member order never changes the outcome", "level": "model_checking",
+        "technique": "Kani/CBMC relational harness on the real derive expansion over an order-preserving second value source: same two members in both orders, keep-going error type; equal values and equal multisets of reports",
+        "design_ref": "DESIGN.md §4 C15",
+        "units": [_kd("derive-order", ["order_camel", "order_tagged", "order_conv8"]), _ed("derive-order", ["order_camel", "order_tagged", "order_conv8"])],
+        "text": "For a struct with renames/defaults/deny_unknown_fields, a tagged enum (tag before and after the other member) and a struct with conversion functions: the payload's two members (distinct symbolic keys, symbolic values) are presented in both orders through the arena value source; the Ok values and the multisets of events received by a keep-going error type must be equal. std map targets: the Verus trace is defined over the entry sequence; order-independence of the multiset there is not claimed.",
+        "level_note": _DERIVE_LEVEL_NOTE + " Objects of exactly 2 members.", "assumptions": _DERIVE_ASSUME},
+})
+
 NOT_APPLICABLE = {
     "C20": "HTTP extractors are three-line async compositions of actix-web/axum extractors with deserr::deserialize; neither installed verifier can run or specify the frameworks (futures, pinning, runtime), so every obligation would be an assumed contract on actix/axum with nothing left to prove; the features are off by default and not compiled in the baseline.",
 }
